@@ -1,8 +1,361 @@
 //! Implementation side of driver op `str` (see /verif/CONTRIBUTING.md).
-#![allow(unused_imports, dead_code)]
+//!
+//! Every sub-command builds a small Jsonnet program whose arguments are literals
+//! (strings rendered with `\u` escapes, astral characters as surrogate pairs),
+//! evaluates it through the real `Program` (`ops_eval::eval_source`) and renders the
+//! manifested JSON result in the canonical answer format shared with the Lean model:
+//!   `s <hex>`            a string
+//!   `n <int>`            a number
+//!   `a <n,n,..>|a -`     an array of numbers
+//!   `l <hex,hex,..>|l []` an array of strings (`-` = empty string)
+//!   `b true|false`
+//!   `E <kind> [detail]`  an evaluation error
+#![allow(dead_code)]
+use crate::ops_eval::{eval_source, EvalOpts};
 use crate::util::*;
 
-/// `str <args...>`: one canonical answer line, or `None` for a malformed request.
-pub fn handle(_args: &[&str]) -> Option<String> {
-    None
+/// A Jsonnet string literal for `s` (only ASCII in the source text).
+pub fn jsonnet_str(s: &str) -> String {
+    let mut out = String::from("\"");
+    for ch in s.chars() {
+        let o = ch as u32;
+        if ch == '"' {
+            out.push_str("\\\"");
+        } else if ch == '\\' {
+            out.push_str("\\\\");
+        } else if o < 0x20 || o == 0x7F {
+            out.push_str(&format!("\\u{:04x}", o));
+        } else if o > 0xFFFF {
+            let v = o - 0x10000;
+            out.push_str(&format!("\\u{:04x}\\u{:04x}", 0xD800 + (v >> 10), 0xDC00 + (v & 0x3FF)));
+        } else if o > 0x7E {
+            out.push_str(&format!("\\u{:04x}", o));
+        } else {
+            out.push(ch);
+        }
+    }
+    out.push('"');
+    out
+}
+
+fn dec_str(h: &str) -> Option<String> {
+    String::from_utf8(hex_dec(h)?).ok()
+}
+
+fn lit(h: &str) -> Option<String> {
+    Some(jsonnet_str(&dec_str(h)?))
+}
+
+/// `[-]digits[.digits]` -> the same text as a Jsonnet number expression.
+fn num(s: &str) -> Option<String> {
+    let body = s.strip_prefix('-').unwrap_or(s);
+    let mut parts = body.split('.');
+    let i = parts.next()?;
+    if i.is_empty() || !i.bytes().all(|b| b.is_ascii_digit()) {
+        return None;
+    }
+    if let Some(f) = parts.next() {
+        if f.is_empty() || !f.bytes().all(|b| b.is_ascii_digit()) {
+            return None;
+        }
+    }
+    if parts.next().is_some() {
+        return None;
+    }
+    Some(format!("({})", s))
+}
+
+fn opt_num(s: &str, null: &str) -> Option<String> {
+    if s == "-" { Some(null.into()) } else { num(s) }
+}
+
+// ---- minimal JSON reader for the manifested result ----
+
+#[derive(Debug)]
+enum J {
+    Null,
+    Bool(bool),
+    Num(String),
+    Str(String),
+    Arr(Vec<J>),
+    Other,
+}
+
+struct P<'a> {
+    b: &'a [u8],
+    i: usize,
+}
+
+impl P<'_> {
+    fn ws(&mut self) {
+        while self.i < self.b.len() && (self.b[self.i] as char).is_ascii_whitespace() {
+            self.i += 1;
+        }
+    }
+    fn hex4(&mut self) -> Option<u32> {
+        let t = std::str::from_utf8(self.b.get(self.i..self.i + 4)?).ok()?;
+        self.i += 4;
+        u32::from_str_radix(t, 16).ok()
+    }
+    fn string(&mut self) -> Option<String> {
+        // at opening quote
+        self.i += 1;
+        let mut out: Vec<u8> = Vec::new();
+        loop {
+            let c = *self.b.get(self.i)?;
+            self.i += 1;
+            match c {
+                b'"' => break,
+                b'\\' => {
+                    let e = *self.b.get(self.i)?;
+                    self.i += 1;
+                    let ch = match e {
+                        b'"' => '"',
+                        b'\\' => '\\',
+                        b'/' => '/',
+                        b'b' => '\u{8}',
+                        b'f' => '\u{c}',
+                        b'n' => '\n',
+                        b'r' => '\r',
+                        b't' => '\t',
+                        b'u' => {
+                            let mut cu = self.hex4()?;
+                            if (0xD800..0xDC00).contains(&cu) {
+                                if self.b.get(self.i) == Some(&b'\\') && self.b.get(self.i + 1) == Some(&b'u') {
+                                    self.i += 2;
+                                    let lo = self.hex4()?;
+                                    cu = 0x10000 + ((cu - 0xD800) << 10) + (lo.wrapping_sub(0xDC00) & 0x3FF);
+                                }
+                            }
+                            char::from_u32(cu)?
+                        }
+                        _ => return None,
+                    };
+                    let mut buf = [0u8; 4];
+                    out.extend_from_slice(ch.encode_utf8(&mut buf).as_bytes());
+                }
+                _ => out.push(c),
+            }
+        }
+        String::from_utf8(out).ok()
+    }
+    fn value(&mut self) -> Option<J> {
+        self.ws();
+        let c = *self.b.get(self.i)?;
+        match c {
+            b'"' => Some(J::Str(self.string()?)),
+            b'[' => {
+                self.i += 1;
+                let mut v = Vec::new();
+                self.ws();
+                if self.b.get(self.i) == Some(&b']') {
+                    self.i += 1;
+                    return Some(J::Arr(v));
+                }
+                loop {
+                    v.push(self.value()?);
+                    self.ws();
+                    match *self.b.get(self.i)? {
+                        b',' => self.i += 1,
+                        b']' => {
+                            self.i += 1;
+                            break;
+                        }
+                        _ => return None,
+                    }
+                }
+                Some(J::Arr(v))
+            }
+            b't' => {
+                self.i += 4;
+                Some(J::Bool(true))
+            }
+            b'f' => {
+                self.i += 5;
+                Some(J::Bool(false))
+            }
+            b'n' => {
+                self.i += 4;
+                Some(J::Null)
+            }
+            b'-' | b'0'..=b'9' => {
+                let st = self.i;
+                while self.i < self.b.len()
+                    && matches!(self.b[self.i], b'-' | b'+' | b'.' | b'e' | b'E' | b'0'..=b'9')
+                {
+                    self.i += 1;
+                }
+                Some(J::Num(String::from_utf8_lossy(&self.b[st..self.i]).into_owned()))
+            }
+            _ => Some(J::Other),
+        }
+    }
+}
+
+fn enc(s: &str) -> String {
+    hex_enc(s.as_bytes())
+}
+
+fn render(j: &J) -> String {
+    match j {
+        J::Str(s) => format!("s {}", enc(s)),
+        J::Num(n) => format!("n {}", n),
+        J::Bool(b) => format!("b {}", b),
+        J::Null => "null".into(),
+        J::Arr(v) => {
+            if v.is_empty() {
+                return "empty".into();
+            }
+            if v.iter().all(|x| matches!(x, J::Str(_))) {
+                let items: Vec<String> = v
+                    .iter()
+                    .map(|x| if let J::Str(s) = x { enc(s) } else { unreachable!() })
+                    .collect();
+                format!("l {}", items.join(","))
+            } else if v.iter().all(|x| matches!(x, J::Num(_))) {
+                let items: Vec<String> = v
+                    .iter()
+                    .map(|x| if let J::Num(s) = x { s.clone() } else { unreachable!() })
+                    .collect();
+                format!("a {}", items.join(","))
+            } else {
+                "other".into()
+            }
+        }
+        J::Other => "other".into(),
+    }
+}
+
+#[derive(Clone, Copy, PartialEq)]
+enum Ty {
+    S,
+    N,
+    A,
+    L,
+    B,
+}
+
+fn err_kind(kind: &str, detail: &str) -> String {
+    match kind {
+        "NumericIndexOutOfRange" => format!("E indexOutOfRange {}", detail),
+        "NumericIndexIsNotValid" => "E indexNotValid".into(),
+        "Other" => {
+            let k = if detail.starts_with("`from` value") {
+                "substrFrom"
+            } else if detail.starts_with("`len` value") {
+                "substrLen"
+            } else if detail.starts_with("slice start") {
+                "sliceStart"
+            } else if detail.starts_with("slice end") {
+                "sliceEnd"
+            } else if detail.starts_with("slice step") {
+                "sliceStep"
+            } else if detail == "string is not single-character" {
+                "notSingleChar"
+            } else if detail.ends_with("is not a valid unicode codepoint") {
+                "badCodepoint"
+            } else if detail == "split delimiter is empty" {
+                "emptyDelim"
+            } else if detail.starts_with("`maxsplits` value") && detail.ends_with("is not an integer") {
+                "maxsplitsNotInt"
+            } else if detail.starts_with("`maxsplits` value") && detail.ends_with("is not -1 or non-negative") {
+                "maxsplitsNeg"
+            } else {
+                return format!("E other Other {}", enc(detail));
+            };
+            format!("E {}", k)
+        }
+        _ => format!("E other {} {}", kind, enc(detail)),
+    }
+}
+
+fn run(src: &str, ty: Ty) -> Option<String> {
+    let o = EvalOpts::parse(&[])?;
+    let out = eval_source(src.as_bytes(), &o);
+    let w: Vec<&str> = out.split(' ').collect();
+    match w.first().copied() {
+        Some("ok") => {
+            let bytes = hex_dec(w.get(1)?)?;
+            let mut p = P { b: &bytes, i: 0 };
+            let j = p.value()?;
+            let r = render(&j);
+            // an empty array has no element type: use the expected one
+            Some(match (r.as_str(), ty) {
+                ("empty", Ty::A) => "a -".into(),
+                ("empty", Ty::L) => "l []".into(),
+                _ => r,
+            })
+        }
+        Some("err") => {
+            if w.get(1) == Some(&"eval") {
+                let detail = String::from_utf8_lossy(&hex_dec(w.get(3).unwrap_or(&"-"))?).into_owned();
+                Some(err_kind(w.get(2)?, &detail))
+            } else {
+                Some(format!("E other {}", w[1..].join("_")))
+            }
+        }
+        _ => Some(out),
+    }
+}
+
+/// `str <sub> <args...>`: one canonical answer line, or `None` for a malformed request.
+pub fn handle(args: &[&str]) -> Option<String> {
+    match args {
+        ["length", s] => run(&format!("std.length({})", lit(s)?), Ty::N),
+        ["index", s, i] => run(&format!("{}[{}]", lit(s)?, num(i)?), Ty::S),
+        ["slice", s, a, b, c] => run(
+            &format!("{}[{}:{}:{}]", lit(s)?, opt_num(a, "")?, opt_num(b, "")?, opt_num(c, "")?),
+            Ty::S,
+        ),
+        ["stdslice", s, a, b, c] => run(
+            &format!(
+                "std.slice({}, {}, {}, {})",
+                lit(s)?,
+                opt_num(a, "null")?,
+                opt_num(b, "null")?,
+                opt_num(c, "null")?
+            ),
+            Ty::S,
+        ),
+        ["substr", s, f, l] => run(&format!("std.substr({}, {}, {})", lit(s)?, num(f)?, num(l)?), Ty::S),
+        ["find", p, s] => run(&format!("std.findSubstr({}, {})", lit(p)?, lit(s)?), Ty::A),
+        ["split", s, c] => run(&format!("std.split({}, {})", lit(s)?, lit(c)?), Ty::L),
+        ["splitlimit", s, c, n] => {
+            run(&format!("std.splitLimit({}, {}, {})", lit(s)?, lit(c)?, num(n)?), Ty::L)
+        }
+        ["splitlimitr", s, c, n] => {
+            run(&format!("std.splitLimitR({}, {}, {})", lit(s)?, lit(c)?, num(n)?), Ty::L)
+        }
+        ["strip", s, c] => run(&format!("std.stripChars({}, {})", lit(s)?, lit(c)?), Ty::S),
+        ["lstrip", s, c] => run(&format!("std.lstripChars({}, {})", lit(s)?, lit(c)?), Ty::S),
+        ["rstrip", s, c] => run(&format!("std.rstripChars({}, {})", lit(s)?, lit(c)?), Ty::S),
+        ["replace", s, f, t] => {
+            run(&format!("std.strReplace({}, {}, {})", lit(s)?, lit(f)?, lit(t)?), Ty::S)
+        }
+        ["chars", s] => run(&format!("std.stringChars({})", lit(s)?), Ty::L),
+        ["reverse", s] => run(&format!("std.reverse({})", lit(s)?), Ty::L),
+        ["codepoint", s] => run(&format!("std.codepoint({})", lit(s)?), Ty::N),
+        ["char", n] => run(&format!("std.char({})", num(n)?), Ty::S),
+        ["join", c, xs] => {
+            let items: Vec<String> = if *xs == "[]" {
+                Vec::new()
+            } else {
+                xs.split(',').map(lit).collect::<Option<Vec<_>>>()?
+            };
+            run(&format!("std.join({}, [{}])", lit(c)?, items.join(", ")), Ty::S)
+        }
+        ["startswith", a, b] => run(&format!("std.startsWith({}, {})", lit(a)?, lit(b)?), Ty::B),
+        ["endswith", a, b] => run(&format!("std.endsWith({}, {})", lit(a)?, lit(b)?), Ty::B),
+        ["upper", s] => run(&format!("std.asciiUpper({})", lit(s)?), Ty::S),
+        ["lower", s] => run(&format!("std.asciiLower({})", lit(s)?), Ty::S),
+        ["trim", s] => run(&format!("std.trim({})", lit(s)?), Ty::S),
+        ["map", s] => run(&format!("std.map(function(c) c + c, {})", lit(s)?), Ty::L),
+        ["flatmap", s] => run(&format!("std.flatMap(function(c) c + \"|\" + c, {})", lit(s)?), Ty::S),
+        ["pad", s, w, l] => {
+            let w: u32 = w.parse().ok()?;
+            let flag = if *l == "1" { "-" } else { "" };
+            run(&format!("std.format(\"%{}{}s\", [{}])", flag, w, lit(s)?), Ty::S)
+        }
+        _ => None,
+    }
 }
